@@ -287,7 +287,7 @@ func keywordCase(run *core.Run) {
 }
 
 // parserErrorLocations: every single-token "poison" corruption of the well-formed base statements (token k
-// replaced by "]", which no production accepts outside an array context; or the statement truncated after k
+// replaced by "]", which no production accepts outside an array context - THEN in statements that have one; or the statement truncated after k
 // tokens) is parsed with position tracking; a located error must point at the offending token - the poison,
 // or the end of input for a truncation.
 func parserErrorLocations(run *core.Run) {
@@ -300,12 +300,29 @@ func parserErrorLocations(run *core.Run) {
 		if len(lex) < 2 {
 			continue
 		}
+		// the poison must be a token no production of this statement accepts anywhere: "]" unless the statement has an
+		// array context, else THEN unless it has a CASE or WHEN
+		poison := "]"
+		has := func(w string) bool {
+			for _, l := range lex {
+				if strings.EqualFold(l, w) {
+					return true
+				}
+			}
+			return false
+		}
+		if has("[") {
+			poison = "THEN"
+			if has("CASE") || has("WHEN") {
+				continue
+			}
+		}
 		for _, layout := range []string{" ", "\n", "\n  "} {
 			for k := 1; k <= len(lex); k++ {
 				var parts []string
 				var want string
 				if k < len(lex) {
-					parts = append(append(append([]string{}, lex[:k]...), "]"), lex[k+1:]...)
+					parts = append(append(append([]string{}, lex[:k]...), poison), lex[k+1:]...)
 					want = "poison"
 				} else {
 					parts = lex[:len(lex)-1] // truncated: the offending token is the end of input
